@@ -19,7 +19,7 @@ mutual
 theorem execEv_restores : ∀ (e : Ev) (s : St), e.wrapped = true → (execEv e s).1.triple = s.triple
   | .guarded kind c body, s, _ => by
     cases h1 : mkCond kind c s with
-    | error e => simp only [execEv, h1]
+    | error e => simp only [execEv, h1]; unfold condFailSt; split <;> rfl
     | ok r =>
       obtain ⟨cv, s1⟩ := r
       have t1 := mkCond_triple kind c s cv s1 h1
@@ -39,15 +39,17 @@ theorem execEv_restores : ∀ (e : Ev) (s : St), e.wrapped = true → (execEv e 
   | .raise, s, _ => by unfold execEv; rfl
   | .opLt a b, s, _ => by
     unfold execEv
+    simp only
     split
     · rename_i r s' h
-      exact (TriplePres.bind (privVal_triple a) (fun x => TriplePres.bind (privVal_triple b) (fun y => ltLL_triple x y))) s r s' h
+      exact ltLL_triple _ _ _ r s' h ▸ rfl
     · rfl
   | .opAssertZero a, s, _ => by
     unfold execEv
+    simp only
     split
     · rename_i r s' h
-      exact (TriplePres.bind (privVal_triple a) (fun x => assertZero_triple x)) s r s' h
+      exact assertZero_triple _ _ r s' h ▸ rfl
     · rfl
 
 theorem execList_restores : ∀ (es : List Ev) (s : St), wrappedList es = true → (execList es s).1.triple = s.triple
